@@ -395,10 +395,10 @@ Qed.
 Lemma fstep_keeps acc x c : f_ref c = false -> In c acc \/ c = x -> In c (fstep acc x).
 Proof.
   intros Hc Hin. destruct acc as [|last acc']; cbn [fstep].
-  - destruct Hin as [[]|->]. left; reflexivity.
+  - destruct Hin as [ [] | -> ]. left; reflexivity.
   - destruct (overlapping (f_full x) (f_full last)).
     + destruct (f_ref last) eqn:El.
-      * destruct Hin as [[<-|Hin]| ->].
+      * destruct Hin as [ [ <- | Hin ] | -> ].
         -- congruence.
         -- right; exact Hin.
         -- left; reflexivity.
@@ -545,7 +545,7 @@ Proof.
     apply StronglySorted_inv in HS. destruct HS as [_ HF]. apply Forall_inv in HF.
     apply in_app_or in Hy. destruct Hy as [Hy|[<-|[]]]; [|congruence].
     specialize (Hcross y n Hy (or_introl eq_refl)). unfold kle in *.
-    exists n. split; [apply in_or_app; right; left; reflexivity|]. right.
+    exists n. split; [apply in_or_app; left; apply in_or_app; right; left; reflexivity|]. right.
     apply ov_between_l; assumption.
   - destruct l2 as [|n l2']; [destruct Hy|].
     pose proof (HA l1 r n l2' eq_refl (or_introl Href)) as Hnr.
